@@ -181,6 +181,8 @@ Definition g_ret (p : gpc) : option (option nat) :=
   | GDefer r | GExit r => Some r
   end.
 
+Definition is_exit (p : gpc) : bool := match p with GExit _ => true | _ => false end.
+
 Definition wait_result (s : st) : option (option nat) := match s_c s with CDone r => Some r | _ => None end.
 
 Definition passed_wait (c : cpc) : bool := match c with CCancel | CRet | CDone _ => true | _ => false end.
@@ -195,6 +197,10 @@ Inductive erounds (sc : script) : nat -> cfg -> cfg -> Prop :=
 | RS : forall n c seg c', efair sc seg -> erounds sc n (run sc c seg) c' -> erounds sc (S n) c c'.
 
 (* ---- orderings on a trace (newest event first: the tail of the list is the past) ---- *)
+
+(* every occurrence of b in the trace has a past that satisfies P *)
+Definition each_occ (b : event) (P : list event -> Prop) (tr : list event) : Prop :=
+  forall l1 l2, tr = l1 ++ b :: l2 -> P l2.
 
 (* every occurrence of b has an a before it *)
 Definition precedes (a b : event) (tr : list event) : Prop :=
